@@ -23,8 +23,8 @@ def expectedShapes : List (String × String) := [
   ("objectSymbolIter.next", "func (i *objectSymbolIter) next() (propIterItem, iterNextFunc) { for i.idx < len(i.keys) { key := i.keys[i.idx] i.idx++ if val := i.o.symValues.get(key); val != nil { return propIterItem{ name: key, value: val, }, i.next } } return propIterItem{}, nil }"),
   ("baseObject.iterateSymbols", "func (o *baseObject) iterateSymbols() iterNextFunc { if o.symValues != nil { return (&objectSymbolIter{ o: o, keys: o.symbols(true, nil), }).next } return func() (propIterItem, iterNextFunc) { return propIterItem{}, nil } }"),
   ("baseObject.symbols", "func (o *baseObject) symbols(all bool, accum []Value) []Value { if o.symValues != nil { iter := o.symValues.newIter() if all { for { entry := iter.next() if entry == nil { break } accum = append(accum, entry.key) } } else { for { entry := iter.next() if entry == nil { break } if prop, ok := entry.value.(*valueProperty); ok { if !prop.enumerable { continue } } accum = append(accum, entry.key) } } } return accum }"),
-  ("mapObject.export", "func (mo *mapObject) export(ctx *objectExportCtx) interface{} { m := make([][2]interface{}, mo.m.size) ctx.put(mo.val, m) iter := mo.m.newIter() for i := 0; i < len(m); i++ { entry := iter.next() if entry == nil { break } m[i][0] = exportValue(entry.key, ctx) m[i][1] = exportValue(entry.value, ctx) } return m }"),
-  ("setObject.export", "func (so *setObject) export(ctx *objectExportCtx) interface{} { a := make([]interface{}, so.m.size) ctx.put(so.val, a) iter := so.m.newIter() for i := 0; i < len(a); i++ { entry := iter.next() if entry == nil { break } a[i] = exportValue(entry.key, ctx) } return a }"),
+  ("mapObject.export", "func (mo *mapObject) export(ctx *objectExportCtx) interface{} { if v, exists := ctx.get(mo.val); exists { return v } m := make([][2]interface{}, mo.m.size) ctx.put(mo.val, m) iter := mo.m.newIter() for i := 0; i < len(m); i++ { entry := iter.next() if entry == nil { break } m[i][0] = exportValue(entry.key, ctx) m[i][1] = exportValue(entry.value, ctx) } return m }"),
+  ("setObject.export", "func (so *setObject) export(ctx *objectExportCtx) interface{} { if v, exists := ctx.get(so.val); exists { return v } a := make([]interface{}, so.m.size) ctx.put(so.val, a) iter := so.m.newIter() for i := 0; i < len(a); i++ { entry := iter.next() if entry == nil { break } a[i] = exportValue(entry.key, ctx) } return a }"),
   ("setObject.exportToArrayOrSlice", "func (so *setObject) exportToArrayOrSlice(dst reflect.Value, typ reflect.Type, ctx *objectExportCtx) error { l := so.m.size if typ.Kind() == reflect.Array { if dst.Len() != l { return fmt.Errorf(\"cannot convert a Set into an array, lengths mismatch: have %d, need %d)\", l, dst.Len()) } } else { dst.Set(reflect.MakeSlice(typ, l, l)) } ctx.putTyped(so.val, typ, dst.Interface()) iter := so.m.newIter() r := so.val.runtime for i := 0; i < l; i++ { entry := iter.next() if entry == nil { break } err := r.toReflectValue(entry.key, dst.Index(i), ctx) if err != nil { return err } } return nil }"),
   ("mapIterObject.next", "func (o *mapIterObject) next() Value { if o.iter == nil { return o.val.runtime.createIterResultObject(_undefined, true) } entry := o.iter.next() if entry == nil { o.iter = nil return o.val.runtime.createIterResultObject(_undefined, true) } var result Value switch o.kind { case iterationKindKey: result = entry.key case iterationKindValue: result = entry.value default: result = o.val.runtime.newArrayValues([]Value{entry.key, entry.value}) } return o.val.runtime.createIterResultObject(result, false) }"),
   ("setIterObject.next", "func (o *setIterObject) next() Value { if o.iter == nil { return o.val.runtime.createIterResultObject(_undefined, true) } entry := o.iter.next() if entry == nil { o.iter = nil return o.val.runtime.createIterResultObject(_undefined, true) } var result Value switch o.kind { case iterationKindValue: result = entry.key default: result = o.val.runtime.newArrayValues([]Value{entry.key, entry.key}) } return o.val.runtime.createIterResultObject(result, false) }"),
